@@ -2,6 +2,7 @@ package c05
 
 import (
 	"bytes"
+	"encoding/binary"
 	"fmt"
 	"math/rand"
 	"strings"
@@ -661,8 +662,24 @@ func c05Raw(c *mon.Case, sp c05Spec) {
 	}
 	rnd := c.Rand
 	permSig := ""
+	var spare *mangos.Message // a received message the application kept instead of freeing it
+	defer func() {
+		if spare != nil {
+			spare.Free()
+		}
+	}()
 	rawSend := func(hdr []byte, a *answerSt, what string) (error, bool) {
-		m := mangos.NewMessage(len(a.body))
+		var m *mangos.Message
+		if spare != nil && len(hdr) >= 4 && spare.Pipe != nil && spare.Pipe.ID() != binary.BigEndian.Uint32(hdr) && rnd.Intn(2) == 0 {
+			// the reply is built in a message object that arrived on ANOTHER connection (an application
+			// recycling what it received): the routing header says where it goes, not the object's origin
+			m, spare = spare, nil
+			m.Header = m.Header[:0]
+			m.Body = m.Body[:0]
+			c.Count("replies_built_in_a_message_from_another_connection", 1)
+		} else {
+			m = mangos.NewMessage(len(a.body))
+		}
 		m.Header = append(m.Header, hdr...)
 		m.Body = append(m.Body, a.body...)
 		call := mon.Go("SendMsg", func() (interface{}, error) { return nil, r.sock.SendMsg(m) })
@@ -718,7 +735,11 @@ func c05Raw(c *mon.Case, sp c05Spec) {
 				if m.Pipe != nil {
 					g.pid = m.Pipe.ID()
 				}
-				m.Free()
+				if spare == nil && rnd.Intn(3) == 0 {
+					spare = m
+				} else {
+					m.Free()
+				}
 				got = append(got, g)
 				if q := r.lookupReq(g.body); q != nil && q.sentinel && sent[q.pipe] == q {
 					need--
